@@ -3,8 +3,11 @@ package harness
 import (
 	"flag"
 	"os"
+	"strconv"
 	"strings"
 	"testing"
+
+	"github.com/gobuffalo/plush/v5/simrt"
 )
 
 // TestMain initialises the environment and writes the worker's statistics.
@@ -15,6 +18,9 @@ func TestMain(m *testing.M) {
 		}
 	}
 	loadKnown()
+	if n, err := strconv.Atoi(os.Getenv("VERIF_TIMER_SITES")); err == nil {
+		simrt.TimerSites = n
+	}
 	flag.Parse()
 	code := m.Run()
 	writeStats()
